@@ -3,7 +3,7 @@
    the extracted inductive types.  No Extract Constant directive. *)
 From Coq Require Extraction.
 From Coq Require Import ExtrOcamlBasic.
-From Ebml Require Import Base Tools Spec Writer Reader.
+From Ebml Require Import Base Tools Spec Writer Reader Pure.
 Extraction Language OCaml.
 Extraction "model.ml"
   Tools.as_vint Tools.as_vint_with_length Tools.read_vint Tools.is_vint
@@ -11,4 +11,4 @@ Extraction "model.ml"
   Tools.arr_to_u64 Tools.arr_to_i64 Tools.arr_to_f64 Tools.is_nan64 Tools.utf8_valid
   Spec.validate_tag_path Spec.path_matches Spec.count_ended
   Writer.run_writer
-  Reader.run_reader Reader.run_reader_cap Reader.run_async.
+  Reader.run_reader Reader.run_reader_cap Reader.run_async Pure.p_run.
